@@ -19,7 +19,7 @@ from sim.world import Run
 
 ID = "C40"
 LEVEL = "exploration"
-RUNS = {"quick": 100000, "thorough": 1500000}
+RUNS = {"quick": 100000, "thorough": 4500000}
 BUDGET = {"quick": 100.0, "thorough": 3300.0}
 CHUNK = 1000
 RULE = ("one run = one seeded history of start_travel / up / down / stop / set_position / update_position and queries with "
